@@ -34,7 +34,7 @@ fn check_index(v: Value, neg: bool, mag: u128) {
     std::mem::forget(v);
 }
 
-// killed by: `idx < 0` -> `idx <= 0`... (no: 0 + len is out of range only when len > 0) -- see toml; killed by `(0..len as i128)` -> `(0..=len as i128)`
+// resolve_i64/u64/i128/u128 killed by: resolve_index `(0..len as i128)` -> `(0..=len as i128)`
 #[kani::proof]
 #[kani::unwind(2)]
 fn resolve_i64() {
@@ -63,7 +63,7 @@ fn resolve_u128() {
     check_index(Value::from(i), false, i);
 }
 
-// killed by: `item.is_u128()` arm returning Err / `as_i128` -> `as_i64` in resolve_index (see toml)
+// killed by: resolve_index `else if item.is_u128()` -> `else if item.is_u128() || item.is_bool()`
 #[kani::proof]
 #[kani::unwind(5)]
 fn resolve_non_integer_is_err() {
@@ -85,6 +85,7 @@ fn resolve_non_integer_is_err() {
 // ---------------------------------------------------------------------------------------------
 // bounded: get_item on arrays of <= 2 u64 elements, any i128 index
 
+// killed by: resolve_index `(0..len as i128)` -> `(0..=len as i128)` (arr[len] out of bounds)
 #[kani::proof]
 #[kani::unwind(4)]
 fn get_item_array_le2() {
@@ -160,18 +161,6 @@ fn nchars_le3(b: [u8; 3], n: usize) -> usize {
     (if n > 0 { lead(b[0]) } else { 0 }) + (if n > 1 { lead(b[1]) } else { 0 }) + (if n > 2 { lead(b[2]) } else { 0 })
 }
 
-/// the bytes of the character-wise reversal, by cases on the character widths
-fn reversed_le3(b: [u8; 3], n: usize) -> [u8; 3] {
-    let one = |x: u8| x < 0x80;
-    match n {
-        2 if one(b[0]) => [b[1], b[0], 0],
-        3 if one(b[0]) && one(b[1]) => [b[2], b[1], b[0]],
-        3 if one(b[0]) => [b[1], b[2], b[0]],
-        3 if one(b[2]) => [b[2], b[0], b[1]],
-        _ => b,
-    }
-}
-
 fn any_str_le3() -> ([u8; 3], usize) {
     let b: [u8; 3] = kani::any();
     let n: usize = kani::any();
@@ -199,6 +188,7 @@ fn mk_string(b: &[u8; 3], n: usize, safe: bool) -> Value {
     Value { inner: ValueInner::String(SmartString::Small { len: n as u8, kind, data }) }
 }
 
+// killed by: SmartString::new `len: s.len() as u8` -> `len: (s.len() as u8) & 1`
 #[kani::proof]
 #[kani::unwind(23)]
 fn smartstring_new_le3() {
@@ -246,6 +236,7 @@ fn never_do_count_chars(_s: &str) -> usize {
     panic!("do_count_chars reached on a short string")
 }
 
+// killed by: Value::len string arm `chars().count()` -> `len()` (bytes)
 #[kani::proof]
 #[kani::unwind(5)]
 #[kani::stub(core::str::count::do_count_chars, never_do_count_chars)]
@@ -253,84 +244,5 @@ fn string_len_le3() {
     let (b, n) = any_str_le3();
     let v = mk_string(&b, n, kani::any());
     assert!(v.len() == Some(nchars_le3(b, n)));
-    std::mem::forget(v);
-}
-
-/// Error exits of the allocator / of `str` slicing: all three diverge in std (panic or abort) after
-/// formatting a message; the stubs panic without formatting.  Sound (reaching one still fails the
-/// harness), and it removes `fmt` from the program CBMC has to execute symbolically.
-fn alloc_error_stub(_e: std::collections::TryReserveError) -> ! {
-    panic!("raw_vec::handle_error reached")
-}
-fn handle_alloc_error_stub(_l: std::alloc::Layout) -> ! {
-    panic!("handle_alloc_error reached")
-}
-fn slice_error_fail_stub(_s: &str, _begin: usize, _end: usize) -> ! {
-    panic!("str slice not on a char boundary / out of range")
-}
-/// `format!` is only used by the code under test to build the *message* of an `Err`; the harnesses
-/// below never look at messages.  CBMC cannot prune the `Err` arm by constant propagation (enum
-/// discriminants go through byte extracts) and `fmt` does not finish, so the message is abstracted
-/// to the empty string.  Trusted: `Display for &'static str` does not panic.
-fn format_stub(_a: std::fmt::Arguments<'_>) -> String {
-    String::new()
-}
-
-#[kani::proof]
-#[kani::unwind(5)]
-#[kani::stub(core::str::count::do_count_chars, never_do_count_chars)]
-#[kani::stub(alloc::raw_vec::handle_error, alloc_error_stub)]
-#[kani::stub(std::alloc::handle_alloc_error, handle_alloc_error_stub)]
-#[kani::stub(std::fmt::format, format_stub)]
-fn string_reverse_le3() {
-    let (b, n) = any_str_le3();
-    let v = mk_string(&b, n, false);
-    let r = v.reverse();
-    let want = reversed_le3(b, n);
-    match &r {
-        Ok(out) => assert!(str_bytes_eq(out, &want[..n])),
-        Err(_) => {
-            assert!(false);
-        }
-    }
-    std::mem::forget(r);
-    std::mem::forget(v);
-}
-
-#[kani::proof]
-#[kani::unwind(5)]
-#[kani::stub(core::str::count::do_count_chars, never_do_count_chars)]
-#[kani::stub(alloc::raw_vec::handle_error, alloc_error_stub)]
-#[kani::stub(std::alloc::handle_alloc_error, handle_alloc_error_stub)]
-#[kani::stub(core::str::slice_error_fail, slice_error_fail_stub)]
-#[kani::stub(std::fmt::format, format_stub)]
-fn string_iter_le3() {
-    use crate::vm::for_loop::create_for_loop_iterator;
-    let (b, n) = any_str_le3();
-    let v = mk_string(&b, n, false);
-    let mut it = create_for_loop_iterator(&v).unwrap();
-    let total = nchars_le3(b, n);
-    assert!(it.size_hint() == (total, Some(total)));
-    let one = |x: u8| x < 0x80;
-    let mut pos = 0usize;
-    let mut seen = 0usize;
-    while pos < n {
-        let w = if one(b[pos]) { 1 } else if b[pos] < 0xE0 { 2 } else { 3 };
-        let item = it.next();
-        match &item {
-            Some((None, c)) => assert!(str_bytes_eq(c, &b[pos..pos + w])),
-            _ => {
-                assert!(false);
-            }
-        }
-        std::mem::forget(item);
-        pos += w;
-        seen += 1;
-    }
-    assert!(pos == n && seen == total);
-    let end = it.next();
-    assert!(end.is_none());
-    std::mem::forget(end);
-    std::mem::forget(it);
     std::mem::forget(v);
 }
